@@ -14,7 +14,7 @@ Step(q) ==
                   [] q.k = "points" -> Points(q)
                   [] q.k = "curve" -> Curve(q)
                   [] q.k = "order" -> OrderIndependent(q)
-                  [] q.k = "options" -> OptionsUntouched(q)
+                  [] q.k = "fresh" -> SameAsFresh(q)
        IN [ok |-> c = "", clause |-> c]
 
 ASSUME JsonSerialize(IOEnv.X_OUT, [i \in 1..Len(Q) |-> Step(Q[i])])
